@@ -26,6 +26,11 @@ type Case struct {
 	Trivial bool          `json:"trivial,omitempty"` // e.g. rejected before the modelled logic ran
 	Replay any            `json:"replay,omitempty"` // concrete material: PEM, bytes, op sequence
 	Dist   map[string]string `json:"-"`             // input dimensions for the distribution table of the evidence
+	// local cases are decided by the harness alone (nothing to compute on the model side: "terminated with a
+	// value or an error"); localClause != "" makes it a violation; weight = how many executions it stands for
+	local       bool
+	localClause string
+	weight      int
 }
 
 type Problem struct {
@@ -147,6 +152,12 @@ func subsetEqual(impl, model map[string]any) (bool, string) {
 
 // Submit sends one case to the model. Safe for concurrent use.
 func (r *Runner) Submit(c *Case) {
+	if c.local {
+		r.mu.Lock()
+		r.pending <- c
+		r.mu.Unlock()
+		return
+	}
 	line, err := json.Marshal(map[string]any{"id": c.ID, "p": r.prop, "k": c.K, "in": c.In, "impl": c.Impl})
 	if err != nil {
 		panic(err)
@@ -167,6 +178,23 @@ func (r *Runner) addProblem(p *Problem) {
 func (r *Runner) reader() {
 	defer r.wg.Done()
 	for c := range r.pending {
+		if c.local {
+			w := c.weight
+			if w == 0 {
+				w = 1
+			}
+			r.sum.Evaluations += w
+			r.sum.Classes[c.Class] += w
+			r.sum.Distinct += w
+			if r.outcomeOf != nil {
+				r.sum.ImplOutcomes[r.outcomeOf(c)] += w
+			}
+			if c.localClause != "" {
+				kind := "spec"
+				r.addProblem(&Problem{Kind: kind, Clause: c.localClause, Case: c})
+			}
+			continue
+		}
 		if !r.out.Scan() {
 			r.addProblem(&Problem{Kind: "driver-error", Case: c, Detail: "driver closed its output"})
 			continue
